@@ -169,6 +169,12 @@ func drawFileCase(t *rapid.T) fileCase {
 			c.Records = c.Records[:5]
 			c.FlushAfter = c.FlushAfter[:5]
 		}
+		if gen.Uniform(t, "repetitive", 40) == 0 {
+			c = drawRepetitiveCase(t)
+			if c.Repeat > 600 {
+				c.Repeat = 600
+			}
+		}
 		return fileCase{Enc: &c, Site: -1}
 	}
 	if gen.Uniform(t, "manyTiny", 10) == 0 {
@@ -315,10 +321,14 @@ func runC08(c fileCase, col *stats.Collector) (bool, []string, error) {
 // enumCheck is propCheck for the enumerating checks: the collector counts
 // fault sites (inside run), not files.
 func enumCheck(t *testing.T, col *stats.Collector, entry string, run func(fileCase, *stats.Collector) (bool, []string, error)) {
+	enumCheckWith(t, col, entry, drawFileCase, run)
+}
+
+func enumCheckWith(t *testing.T, col *stats.Collector, entry string, draw func(*rapid.T) fileCase, run func(fileCase, *stats.Collector) (bool, []string, error)) {
 	defer col.Flush()
 	files := 0
 	rapid.Check(t, func(rt *rapid.T) {
-		c := drawFileCase(rt)
+		c := draw(rt)
 		var nt bool
 		err := protect(func() error {
 			var e error
@@ -473,7 +483,7 @@ func TestC08(t *testing.T) {
 
 const c07Rule = "rapid draws of valid files (as C08) and, for each file, enumeration of: every bit of every block-trailing sync marker and of the header's marker, every bit of every snappy CRC, " +
 	"every bit of every compressed payload (at most 4096 sites per file, strided beyond), every bit of the magic, header rewrites (schema removed, codec removed, codec replaced by unknown names), " +
-	"a block count raised by one, a complete nested read of the same file from inside the callback, every record index as the point where the callback fails (returning an ordinary error, io.EOF, io.ErrUnexpectedEOF or an error wrapping io.EOF); oracle: intact file -> the reference decode, nil error; sync / CRC / magic damage, missing schema, unknown codec -> non-nil error and only intact records before it; " +
+	"a block count raised by one, a complete nested read of the same file from inside the callback, every record index (in files of more than 200 records: the first 50, the last 20 and every 97th) as the point where the callback fails (returning an ordinary error, io.EOF, io.ErrUnexpectedEOF or an error wrapping io.EOF); oracle: intact file -> the reference decode, nil error; sync / CRC / magic damage, missing schema, unknown codec -> non-nil error and only intact records before it; " +
 	"payload damage -> error exactly when the reference decompressor (compress/flate, snappy + CRC) rejects the damaged payload; no avro.codec -> same records as the null codec; " +
 	"callback error at k -> exactly k+1 callbacks and the identical error value; evaluations = sites; non-trivial = site in a block other than the first of a multi-block file, or callback failure at k > 0; distinct by (file hash, site)"
 
@@ -718,6 +728,9 @@ func runC07(c fileCase, col *stats.Collector) (bool, []string, error) {
 		if failure != nil || (c.Site >= 0 && my != c.Site) {
 			continue
 		}
+		if n := len(b.intact); n > 200 && c.Site < 0 && !(k < 50 || k >= n-20 || k%97 == len(b.file)%97) {
+			continue // long files: the first 50, the last 20 and every 97th record index
+		}
 		counts["callback_error"]++
 		kk := k
 		var got []spec.AbsVal
@@ -789,4 +802,18 @@ func TestC07(t *testing.T) {
 	col := stats.New("C07")
 	col.Rule = c07Rule
 	enumCheck(t, col, "c07", runC07)
+}
+
+// TestC07Repetitive: files whose blocks hold hundreds of identical rows (blocks
+// that compress by more than an order of magnitude).
+func TestC07Repetitive(t *testing.T) {
+	col := stats.New("C07")
+	col.Rule = c07Rule
+	enumCheckWith(t, col, "c07", func(t *rapid.T) fileCase {
+		c := drawRepetitiveCase(t)
+		if c.Repeat > 1500 {
+			c.Repeat = 1500
+		}
+		return fileCase{Enc: &c, Site: -1}
+	}, runC07)
 }
